@@ -23,7 +23,7 @@ Fixpoint olookup2_near (tbl : list (float * float * float)) (x y : float) : floa
   | [] => nan
   | (a, b, r) :: t =>
       let s := abs x + abs y in
-      if PrimFloat.leb (abs (a - x)) (0x1p-30 * s) && PrimFloat.leb (abs (b - y)) (0x1p-30 * s) then r
+      if PrimFloat.leb (abs (a - x)) (0x1p-44 * s) && PrimFloat.leb (abs (b - y)) (0x1p-44 * s) then r
       else olookup2_near t x y
   end.
 
